@@ -85,14 +85,14 @@ def make_cases(tier):
     sv = lambda n: A.svar(m, n)
     qm = "(module) @m "
     base.append(A.case("c08fan-lazy", A.file([
-        A.stanza(qm, [A.node(sv("a"))]),
-        A.stanza(qm, [A.node(sv("b"))]),
+        A.stanza(qm, [A.node(sv("a")), A.attrn(sv("a"), A.attr("id", A.string("a")))]),
+        A.stanza(qm, [A.node(sv("b")), A.attrn(sv("b"), A.attr("id", A.string("b")))]),
         A.stanza(qm, [A.node(sv("c")), A.edge(sv("c"), sv("a")), A.edge(sv("c"), sv("b")), A.attre(sv("c"), sv("a"), A.attr("k", A.integer(1))),
                       A.attre(sv("c"), sv("b"), A.attr("k", A.integer(2))), A.edge(sv("c"), sv("a"))]),
     ]), 2, "lazy"))
     base.append(A.case("c08fan2-lazy", A.file([
-        A.stanza(qm, [A.node(sv("a")), A.edge(sv("c"), sv("a"))]),
-        A.stanza(qm, [A.node(sv("b")), A.edge(sv("c"), sv("b")), A.node(sv("d")), A.edge(sv("c"), sv("d"))]),
+        A.stanza(qm, [A.node(sv("a")), A.attrn(sv("a"), A.attr("id", A.string("a"))), A.edge(sv("c"), sv("a"))]),
+        A.stanza(qm, [A.node(sv("b")), A.attrn(sv("b"), A.attr("id", A.string("b"))), A.edge(sv("c"), sv("b")), A.node(sv("d")), A.attrn(sv("d"), A.attr("id", A.string("d"))), A.edge(sv("c"), sv("d"))]),
         A.stanza(qm, [A.node(sv("c")), A.attre(sv("c"), sv("b"), A.attr("k", A.integer(2))), A.attre(sv("c"), sv("a"), A.attr("k", A.integer(1))),
                       A.attre(sv("c"), sv("d"), A.attr("k", A.integer(3)))]),
     ]), 3, "lazy"))
